@@ -268,6 +268,57 @@ var ownExceptions = []ownException{
 	{"internal/logql/logqlengine/logqlmetric.build", "internal/logql/logqlengine/logqlmetric.LiteralBinOp", "LiteralBinOp fails only when buildSampleBinOp rejects the operator (logic/regex operators); the parser never produces those next to a bare literal (parseBinOp rejects scalars in logical operations), so the failure edge of this tail call is unreachable from parsed queries"},
 }
 
+// ownExceptionBroken: the premise of a recorded exception is re-checked on every run. For
+// build -> LiteralBinOp: every failure exit of LiteralBinOp hands on the error of buildSampleBinOp
+// (the operator table), nothing else can make it fail. "" when the premise holds.
+func ownExceptionBroken(p *Program, ex ownException) string {
+	i := strings.LastIndex(ex.Callee, ".")
+	if i < 0 {
+		return "callee not resolvable"
+	}
+	fn := p.Func(ex.Callee[:i], ex.Callee[i+1:])
+	if fn == nil {
+		return "callee " + ex.Callee + " not found"
+	}
+	var fromTable func(v ssa.Value, d int) bool
+	fromTable = func(v ssa.Value, d int) bool {
+		if d > 6 {
+			return false
+		}
+		v = unspill(v)
+		switch x := v.(type) {
+		case *ssa.Extract:
+			c, ok := x.Tuple.(*ssa.Call)
+			return ok && callIs(c, modPath+"/"+metricPkg, "buildSampleBinOp")
+		case *ssa.Call:
+			if pk, nm := calleePkgName(x); strings.HasSuffix(pk, "go-faster/errors") && (nm == "Wrap" || nm == "Wrapf") && len(x.Call.Args) > 0 {
+				return fromTable(x.Call.Args[0], d+1)
+			}
+		case *ssa.Phi:
+			for _, e := range x.Edges {
+				if !isNilConst(e) && !fromTable(e, d+1) {
+					return false
+				}
+			}
+			return true
+		}
+		return false
+	}
+	for _, ret := range returnsOf(fn) {
+		if len(ret.Results) == 0 {
+			continue
+		}
+		last := ret.Results[len(ret.Results)-1]
+		if !isErrorType(last.Type()) || isNilConst(last) {
+			continue
+		}
+		if !fromTable(last, 0) {
+			return shortFuncName(fn) + " can fail with " + describe(last, 0) + ", which is not the operator table's error (" + p.Pos(ret.Pos()) + ")"
+		}
+	}
+	return ""
+}
+
 func ruleOwnPath(r *Run, rels []string) {
 	p := r.P
 	nAcq := 0
@@ -603,6 +654,9 @@ func ownDisposition(r *Run, fn *ssa.Function, e *feEnd, acq *ssa.Call, R ssa.Val
 				}
 				if fpk != nil && strings.HasPrefix(ex.Fn, strings.TrimPrefix(fpk.Pkg.Path(), modPath+"/")+".") {
 					if wrappedBy == ex.Callee {
+						if why := ownExceptionBroken(r.P, ex); why != "" {
+							return false, "the resource is handed to " + wrappedBy + " by a tail call and nothing closes it when " + wrappedBy + " fails; the recorded exception no longer applies: " + why
+						}
 						r.Notes = append(r.Notes, "OWN exception "+ex.Fn+" -> "+ex.Callee+": "+ex.Reason)
 						return true, "wrapped by " + wrappedBy + " (recorded exception for the failure edge)"
 					}
